@@ -111,7 +111,9 @@ func (s *Server) handleService(ctx context.Context, sc *uasc.SecureChannel, reqI
 	typeID := ua.ServiceTypeID(req)
 	h, ok := s.handlers[typeID]
 	if ok {
-		resp, err = h(sc, req, reqID)
+		if err = s.checkSession(typeID, req); err == nil {
+			resp, err = h(sc, req, reqID)
+		}
 	} else {
 		if typeID == 0 {
 			if s.cfg.logger != nil {
@@ -139,6 +141,38 @@ func (s *Server) handleService(ctx context.Context, sc *uasc.SecureChannel, reqI
 			s.cfg.logger.Warn("Error sending response: %s\n", err)
 		}
 	}
+}
+
+// checkSession verifies that the request carries the authentication token of
+// an activated session unless the service is one of the discovery or session
+// services which are called without one.
+//
+// Part 4, 5.6: all other services require an activated session.
+func (s *Server) checkSession(typeID uint16, req ua.Request) error {
+	switch typeID {
+	case id.FindServersRequest_Encoding_DefaultBinary,
+		id.FindServersOnNetworkRequest_Encoding_DefaultBinary,
+		id.GetEndpointsRequest_Encoding_DefaultBinary,
+		id.RegisterServerRequest_Encoding_DefaultBinary,
+		id.RegisterServer2Request_Encoding_DefaultBinary,
+		id.CreateSessionRequest_Encoding_DefaultBinary,
+		id.ActivateSessionRequest_Encoding_DefaultBinary,
+		id.CloseSessionRequest_Encoding_DefaultBinary:
+		return nil
+	}
+
+	hdr := req.Header()
+	if hdr == nil || hdr.AuthenticationToken == nil {
+		return ua.StatusBadSessionIDInvalid
+	}
+	sess := s.sb.Session(hdr.AuthenticationToken)
+	if sess == nil {
+		return ua.StatusBadSessionIDInvalid
+	}
+	if !sess.isActivated() {
+		return ua.StatusBadSessionNotActivated
+	}
+	return nil
 }
 
 func responseHeader(reqID uint32, statusCode ua.StatusCode) *ua.ResponseHeader {
